@@ -591,7 +591,7 @@ def replay(case):
         from mc.checks import c04_amb
 
         return c04_amb.replay(case)
-    if case.get("part") in ("zero_limits", "reused_hashers"):
+    if case.get("part") in ("zero_limits", "reused_hashers", "versioned"):
         from mc.checks import c04_zero
 
         return c04_zero.replay(case)
@@ -751,6 +751,8 @@ def run(ctx):
     ctx.merge(core.pmap(c04_zero.work, c04_zero.tasks()), part="zero_limits")
     # part "reused_hashers": contexts built from the configured hasher objects of another context
     ctx.merge(core.pmap(c04_zero.work_reuse, c04_zero.tasks_reuse()), part="reused_hashers")
+    # part "versioned": a scheme that flags its own outdated format version (bcrypt_sha256 v1 / v2)
+    ctx.merge(core.pmap(c04_zero.work_versioned, c04_zero.tasks_versioned()), part="versioned")
     ctx.cov["states"] = acc.counters["states"]
     ctx.cov["transitions"] = acc.counters["transitions"]
     ctx.cov["traces_validated_against_impl"] = acc.counters["histories"]
